@@ -42,7 +42,7 @@ inductive WOp where
 
 /-- signals of the run, by name; the model numbers them 1.. (the numbering of the virtual system is
     arbitrary: observations show names) -/
-def sigNames : List String := ["HUP", "INT", "QUIT", "KILL", "TERM", "USR1", "USR2", "STOP", "CONT"]
+def sigNames : List String := ["HUP", "INT", "QUIT", "KILL", "TERM", "USR1", "USR2", "STOP", "CONT", "CHLD"]
 
 def sigNo (name : String) : Nat := (sigNames.idxOf name) + 1
 
@@ -66,8 +66,11 @@ inductive Stmt where
   | kill (sig : String) (k : Nat)
   | tw (sig : String) (n : Nat)
   | tk (gap : Bool) (sig : String) (ms n : Nat)
-  /-- `trap … SIG; ( kill -s SIG $$; [( exit 0 );] exit N ) & wait $!` -/
-  | ts (nested : Bool) (sig : String) (n : Nat)
+  /-- `trap … SIG…; ( kill -s SIG $$; …; exit N ) & wait [$! operands…]`: the signals the job sends in order (none for
+      `CHLD`: the job's exit is the signal), further operands after `$!`, or a `wait` without operands -/
+  | ts (sigs : List String) (n : Nat) (rest : List WOp) (bare : Bool)
+  /-- `trap - CHLD` -/
+  | tcx
   | ti
   | gj (k : Nat)
   | wx
@@ -346,28 +349,34 @@ def St.killJob (st : St) (pid sig : Nat) : St :=
                asleep := st1.asleep.filter fun e => e.1 != pid }
   else st1
 
-/-- `trap … SIG; ( …; kill -s SIG $$; …; exit N ) & wait $!`: the shell traps `sig`, forks a job that sends `sig` to
-    the shell and exits later, and waits for that job (statements `ts`, `tsn`, `tw`) -/
-def St.trapWait (st : St) (sig : String) (n0 : Nat) : St :=
-  -- the shell traps `sig`, forks a job that sends `sig` to the shell and then exits, and waits for that job:
-  -- model column = a run of the `WaitTrap.lean` system (`wait_while_running` around `wait_for_any_job_or_trap`
-  -- with the job as the sender of the trapped signal) under the block scheduler; spec column = XCU 2.12
+/-- `trap … SIG…; ( …; kill -s SIG $$; …; exit N ) & wait [$! operands…]`: the shell traps the signals `sigs`, forks a
+    job that sends them to the shell (in this order) and exits later, and waits — for that job (`ts`, `tsn`, `tsr`,
+    `ts2`, `tw`), for that job and further operands (`tso`), or for all jobs (`tsa`).  `sigs = ["CHLD"]`: nothing is
+    sent, SIGCHLD itself has the trap action (`tc`).
+    Model column = `tawaitJobs` / `tawaitAll` of `WaitTrap.lean` (`Command::await_jobs` over `wait_while_running` over
+    `wait_for_any_job_or_trap`) under the block scheduler `trun`; spec column = XCU 2.12: exit status 384 + the first
+    signal, no job waited for.  Every trap action prints its line (the first inside the built-in, the others after it). -/
+def St.trapWait (st : St) (sigs : List String) (n0 : Nat) (rest : List WOp) (bare : Bool) : St :=
   let n := exitStatusSeen n0
   let st1 := st.newJob n 0
   let pid := (st1.jobs.getLast?.map (·.2.1)).getD 0
-  let trapOut := s!"o:trap{sig.toLower}"
+  let first := sigs.headD "?"
+  let st1 := { st1 with out := (sigs.map fun (sg : String) => s!"o:trap{sg.toLower}").reverse ++ st1.out }
   if st.useSys then
-    let t0 := TSys.start st1.sys pid [sigNo sig] [(pid, sigNo sig)]
-    let t := trun 100000 (mkChoices st.digits st.runs) (parentTurn t0)
-    let st2 := { st1 with sys := t.sys, runs := st1.runs + 1 }
-    match t.out with
-    | some (.trapped σ) => { st2 with status := σ + SIGNAL_EXIT_OFFSET, out := trapOut :: st2.out }
-    | some (.finished _ r) =>
-      -- (not reachable, `ts_driver_trapped_any_children`; what the code would do: the job is removed,
-      -- the trap action runs after the built-in)
-      { st2 with status := r.status, active := st2.active.erase pid, out := trapOut :: st2.out }
-    | _ => { st2 with status := 998 }
-  else { st1 with status := Spec.waitInterrupted (sigNo sig), out := trapOut :: st1.out }
+    let sent := sigs.filter (· != "CHLD")
+    let t0 : TSys := { sys := st1.sys, job := pid, traps := sigs.map sigNo, senders := sent.map fun sg => (pid, sigNo sg),
+                       out := some .nothing }
+    let run := fun x => trun 100000 (mkChoices st.digits st.runs) (parentTurn x)
+    let ops : List (Option Nat) := some pid :: ((rest.mapM st1.pidOf).getD []).map fun o => match o with
+      | some p => resolve st1.active (.pid p)
+      | none => none
+    let res := if bare then tawaitAll run 64 st1.active t0 else tawaitJobs run st1.active t0 ops
+    let st2 := { st1 with sys := res.2.1.sys, active := res.1, runs := st1.runs + 1 }
+    match res.2.2 with
+    | .trapped σ _ => { st2 with status := σ + SIGNAL_EXIT_OFFSET }
+    | .done sts => { st2 with status := sts.getLast?.getD 0 }   -- (not reachable: `ts_driver_trapped_any_children`)
+    | .failed _ => { st2 with status := 998 }
+  else { st1 with status := Spec.waitInterrupted (sigNo first) }
 
 def St.stmt (st : St) : Stmt → St
   | .pf on => { st with pf := on, status := 0 }
@@ -423,7 +432,7 @@ def St.stmt (st : St) : Stmt → St
   | .tw sig n =>
     -- the helper job (naps, sends, naps, exits: virtual time passes); the `wait` for it is interrupted by the trapped
     -- signal: trap action first, then 384+sig
-    let st1 := st.wake.trapWait sig n
+    let st1 := st.wake.trapWait [sig] n [] false
     { st1 with fresh := st1.kept }
   | .tk gap sig _ n0 =>
     let n := exitStatusSeen n0
@@ -440,7 +449,8 @@ def St.stmt (st : St) : Stmt → St
       else st1
     if (sig == "INT" || sig == "QUIT") && !st.monitor then { st2 with fresh := st2.fresh ++ [pid], status := 0 }
     else { st2.killJob pid (sigNo sig) with status := 0 }
-  | .ts _ sig n0 => st.trapWait sig n0
+  | .ts sigs n0 rest bare => st.trapWait sigs n0 rest bare
+  | .tcx => { st with status := 0 }
   | .ti => { st with status := 0 }
   | .gj _ => { st with status := if st.useSys then waitStatus .echild else Spec.wait none }
   | .wx => { st with status := 2 }
